@@ -67,10 +67,22 @@ func poll(c *vh.Case, t *chainx.Tree, nd *chainx.Node, s *sub) (progress bool) {
 	if len(rus)+len(aus) > s.chunk {
 		c.Oracle("updatessince-exceeds-max", "%s returned %d updates", op, len(rus)+len(aus))
 	}
+	// a path that does not attach is reported and not folded into the shadow ledger (the ledger's own
+	// bookkeeping assumes contiguity)
+	bad := false
+	defer func() {
+		if r := recover(); r != nil {
+			c.Oracle("updates-not-foldable", "%s: folding the returned updates into a subscriber's ledger panicked: %v", op, r)
+			s.dead = true
+			progress = false
+		}
+	}()
 	for _, ru := range rus {
 		fmt.Fprintf(&sb, " r%s", idxStr(t, types.ChainIndex{Height: ru.State.Index.Height + 1, ID: ru.Block.ID()}))
 		if ru.Block.ID() != cur.ID {
 			c.Oracle("revert-not-contiguous", "%s: revert of %v while the subscriber is at %v", op, ru.Block.ID(), cur)
+			bad = true
+			break
 		}
 		if ru.State.Index.ID != ru.Block.ParentID {
 			c.Oracle("revert-state-not-parent", "%s", op)
@@ -79,9 +91,14 @@ func poll(c *vh.Case, t *chainx.Tree, nd *chainx.Node, s *sub) (progress bool) {
 		s.led.Revert(ru)
 	}
 	for _, au := range aus {
+		if bad {
+			break
+		}
 		fmt.Fprintf(&sb, " a%s", idxStr(t, au.State.Index))
 		if cur != (types.ChainIndex{}) && au.Block.ParentID != cur.ID {
 			c.Oracle("apply-not-contiguous", "%s: apply of a block whose parent is %v while the subscriber is at %v", op, au.Block.ParentID, cur)
+			bad = true
+			break
 		}
 		if bi, ok := nd.CM.BestIndex(au.State.Index.Height); !ok || bi != au.State.Index {
 			c.Oracle("apply-off-best-chain", "%s: applied %v is not on the best chain", op, au.State.Index)
@@ -90,6 +107,10 @@ func poll(c *vh.Case, t *chainx.Tree, nd *chainx.Node, s *sub) (progress bool) {
 		s.led.Apply(au)
 	}
 	c.Op(op, sb.String())
+	if bad {
+		s.dead = true
+		return false
+	}
 	if len(rus)+len(aus) == 0 && s.idx != nd.CM.Tip() && s.chunk >= 1 {
 		c.Oracle("updatessince-no-progress", "%s returned nothing although the subscriber is not at the tip %v", op, nd.CM.Tip())
 		s.dead = true
